@@ -407,7 +407,7 @@ fn parts(ctx: &Ctx) -> Vec<PartSpec> {
         v.extend([e1("counter", 2), e1("gauge", 2), e1("histogram", 2), e1("mixed", 2)]);
     } else {
         v.push(PartSpec::new("e3-seq-d4", json!({"e3": "seq", "depth": 4})).budget(1200.0));
-        v.extend([l("counter_inc", None).budget(900.0), l("counter_mix", Some(3)).budget(900.0), l("counter_mix3", None).budget(900.0), l("counter_mix22", None).budget(900.0), l("gauge", None).budget(1500.0), l("gauge22", Some(3)).budget(1500.0)]);
+        v.extend([l("counter_inc", None).budget(900.0), l("counter_mix", Some(3)).budget(900.0), l("counter_mix3", None).budget(900.0), l("counter_mix22", None).budget(900.0), l("gauge", Some(4)).budget(1500.0), l("gauge22", Some(3)).budget(1500.0)]);
         v.extend([e1("counter", 4).budget(1500.0), e1("gauge", 4).budget(1500.0), e1("histogram", 3).budget(1500.0), e1("mixed", 3).budget(1500.0)]);
     }
     v
